@@ -4,7 +4,11 @@ use super::indexes::{AssetIndex, PlaneAssetId, PolicyIndex, UtxoIndex};
 use super::utxo_stat::UtxosStat;
 use crate::builders::batch_tools::proposals::{TxOutputProposal, TxProposal};
 use crate::*;
+#[cfg(not(feature = "verif-hooks"))]
 use std::collections::{HashMap, HashSet};
+#[cfg(feature = "verif-hooks")]
+#[allow(unused_imports)]
+use crate::verif_hooks::{HashMap, HashSet, SimNew};
 
 #[derive(Clone)]
 pub(crate) struct TxProposalChanges {
